@@ -675,9 +675,14 @@ loop:
 		"wall_s":      wall,
 		"violations":  len(fresh),
 	}
-	os.MkdirAll(filepath.Join(*verifDir, "evidence"), 0o755)
+	evDir := filepath.Join(*verifDir, "evidence")
+	if *repoDir != "/repo" {
+		// self-tests against a scratch copy must not overwrite the evidence of the real tree
+		evDir = filepath.Join(*verifDir, "run", "scratch-evidence")
+	}
+	os.MkdirAll(evDir, 0o755)
 	eb, _ := json.MarshalIndent(ev, "", " ")
-	os.WriteFile(filepath.Join(*verifDir, "evidence", *propID+".json"), eb, 0o644)
+	os.WriteFile(filepath.Join(evDir, *propID+".json"), eb, 0o644)
 
 	// 7. verdict
 	for _, l := range knownLines {
